@@ -100,7 +100,7 @@ def run(ctx):
     ctx.assume('oracle: explicit cgs factors (1 mJy = 1e-26 erg/s/cm2/Hz, 1 W/m2 = 1e3 erg/s/cm2, L = F d^2 with d in cm as the statement says)',
                'rtol 1e-12')
     ctx.require_events('convert_flux:post', 'read:matrix', 'roundtrip:ABA', 'chain:ABC', 'refused:target', 'refused:stored')
-    ctx.require_regimes('stored:desc-wav', 'stored:asc-wav', 'read-order:nu', 'read-order:wav')
+    ctx.require_regimes('stored:desc-wav', 'stored:asc-wav', 'read-order:nu', 'read-order:wav', 'stored:nu-in-GHz', 'stored:no-distance', 'stored:error-column-other-unit')
     d = ctx.newdir('c15')
     names = list(UNITS)
     ic = 0
@@ -138,10 +138,23 @@ def run(ctx):
                     wav_s, nu_s = wav[::-1], nu[::-1]
                 else:
                     dw = bool(rng.random() < 0.5)          # storage order: descending wavelength (as the original packages) or ascending
-                    pkg.write_sed_file(path, 'x', wav, nu, aps, f, e, descending_wav=dw, fmt='D',
-                                       legacy_units=(spelling in ('MJY', 'ergs/cm^2/s')), flux_unit=spelling, distance_cm=d_cm)
+                    legacy = spelling in ('MJY', 'ergs/cm^2/s')
+                    no_dist = a != 'erg/s' and (ic + rep) % 4 == 1         # no DISTANCE keyword: the reader supplies the SED's distance
+                    nu_unit = ('GHz', 1e9) if (not legacy and (ic + rep) % 3 == 0) else None
+                    # the error column in another unit of the same family than the flux column
+                    err_unit, efac = None, 1.0
+                    if a in ('mJy', 'Jy') and not legacy and (rep % 2 == 0 or rng.random() < 0.3):
+                        err_unit, efac = ('Jy', 1e3) if a == 'mJy' else ('mJy', 1e-3)     # efac: stored-error-unit per flux unit
+                        ctx.regime('stored:error-column-other-unit')
+                    pkg.write_sed_file(path, 'x', wav, nu, aps, f, e / efac, descending_wav=dw, fmt='D',
+                                       legacy_units=legacy, flux_unit=spelling, distance_cm=None if no_dist else d_cm,
+                                       nu_unit=nu_unit, err_unit=err_unit)
                     fs, es, wav_s, nu_s = f[:, ::-1], e[:, ::-1], wav[::-1], nu[::-1]      # reference arrays in ascending frequency
                     ctx.regime('stored:desc-wav' if dw else 'stored:asc-wav')
+                    if nu_unit:
+                        ctx.regime('stored:nu-in-GHz')
+                    if no_dist:
+                        ctx.regime('stored:no-distance')
                 for b in names:
                     wit = {'stored': a, 'spelling': spelling, 'requested': b, 'distance_cm': d_cm, 'n_ap': n_ap}
                     order = 'nu' if rng.random() < 0.5 else 'wav'
@@ -154,6 +167,23 @@ def run(ctx):
                                       'SED.read raised for supported units: %r' % (exc,), wit)
                         continue
                     ctx.event('read:matrix')
+                    if spelling != '<SED.write>' and no_dist:
+                        # "d the SED's distance": without a DISTANCE keyword that is the distance the returned object reports
+                        try:
+                            d_cm = float(r.distance.to(u.cm).value)
+                        except Exception:
+                            ctx.violation('read:no-distance', 'an SED read from a file without DISTANCE reports no distance', wit)
+                            continue
+                        wit['distance_cm'] = d_cm
+                    ok_unit = False
+                    try:
+                        ok_unit = r.flux.unit.is_equivalent(UNITS[b][0]) and r.error.unit.is_equivalent(UNITS[b][0])
+                    except Exception:
+                        pass
+                    if not ok_unit:
+                        ctx.violation('read:unit-not-requested:%s' % b, 'the values returned are not in (a unit of the kind of) the requested unit',
+                                      dict(wit, got_unit=str(getattr(r.flux, 'unit', None))))
+                        continue
                     nu_r = np.asarray(r.nu.to(u.Hz).value, float)
                     ref_f = from_base(b, to_base(a, fs, nu_s, d_cm), nu_s, d_cm)
                     ref_e = from_base(b, to_base(a, es, nu_s, d_cm), nu_s, d_cm)
